@@ -389,6 +389,10 @@ def t09_hhea(run, fx):
 
 
 def check(run, fx, tier, floors=True):
+    if floors:
+        # a subset or instanced CFF font starts with the header the writer emits: its announced size must be the size written (shared with C15)
+        import rules_C15
+        rules_C15.c15_s(run, fx, floors)
     t09_prod(run, fx)
     t09_order(run, fx)
     t09_sum(run, fx)
